@@ -45,12 +45,13 @@ META = {
 
 def run(rep):
     for rel in TWINS_FILES:
-        relabel_generic(rep, rel)
-        relabel_wl(rep, rel)
-        serialise(rep, rel)
-        value_object(rep, rel, "CanonicalGraph")
-        value_object(rep, rel, "CanonicalRule")
-        dispatch(rep, rel)
+        rep.run(relabel_generic, rel)
+        rep.run(relabel_wl, rel)
+        rep.run(serialise, rel)
+        rep.run(value_object, rel, "CanonicalGraph")
+        rep.run(value_object, rel, "CanonicalRule")
+        rep.run(dispatch, rel)
+    rep.run(no_salted_hash)
     rep.run(relabel_morgan)
     rep.run(nauty)
     rep.run(value_object, SG, "SynGraph")
@@ -470,6 +471,8 @@ def value_object(rep, rel, cls):
 
 
 MUTANTS = [
+    dict(name="morgan seeds node labels from builtin hash()", file=ALG, expect="O8.2",
+         old="            attr_hash = int(_digest(attr_text), 16)", new="            attr_hash = hash(attr_text) | 1"),
     dict(name="revert F-C08a (nauty numbering with duplicates)", revert_patch="notes/fixes/C08a.patch", expect="O8.1"),
     dict(name="revert F-C08b (serialisation ties / raw end points)", revert_patch="notes/fixes/C08b.patch", expect="O8.2"),
     dict(name="node sort without id in the Canon twin only", file=TWINS_FILES[1], expect="O8.2",
@@ -510,3 +513,31 @@ TWINS = [
     dict(name="edge end points printed as a sorted list", file=TWINS_FILES[0],
          old='f"{tuple(sorted((u, v)))}:{self._edge_key(u,v,d)}" for u, v, d in edges', new='f"{sorted((u, v))}:{self._edge_key(u,v,d)}" for u, v, d in edges'),
 ]
+
+
+# ------------------------------------------------------------------ O8.2 determinism across interpreter runs
+def no_salted_hash(rep):
+    """Python salts hash() of str / bytes (and of anything containing them) per interpreter run (PYTHONHASHSEED).  A label, an order
+    or a digest derived from it is not a function of the graph.  The canonicaliser modules use hashlib digests of text instead;
+    the only legitimate builtin hash() is inside __hash__ (a per-process value by definition)."""
+    n_funcs, bad = 0, []
+    for rel in (ALG, NA) + tuple(TWINS_FILES):
+        mi = rep.repo.module(rel)
+        for fi in mi.funcs.values():
+            if fi.qual.endswith("__hash__"):
+                continue
+            n_funcs += 1
+            for c in walk_local(fi.node):
+                if isinstance(c, ast.Call) and isinstance(c.func, ast.Name) and c.func.id == "hash" and c.args:
+                    # hash() of a plain int expression is the int itself: not salted
+                    a = c.args[0]
+                    intish = isinstance(a, ast.Constant) and isinstance(a.value, int) or (isinstance(a, ast.Call) and call_name(a) in ("int", "len"))
+                    if not intish:
+                        bad.append((fi, c))
+    for fi, c in bad:
+        rep.ob("O8.2", "R4", fi, False, c, "builtin hash() of attribute data feeds a label / order / digest: the result changes with PYTHONHASHSEED, so the canonical "
+               "numbering and the signature are not a deterministic function of the graph", node=c)
+    if not bad:
+        rep.ob("O8.2", "R4", f"{ALG}:<module>", True, f"no builtin hash() outside __hash__ in {n_funcs} canonicaliser functions",
+               "labels, orders and digests never depend on Python's per-process string hashing")
+    rep.need("R4", n_funcs, 20, "functions of the canonicaliser modules scanned for builtin hash()")
